@@ -1,13 +1,16 @@
 import Pushr.Props.C03
 import Pushr.Print
+import Pushr.Item
 /-! # C11 — printing a program and parsing the text back reproduces the program
 
 Proved at the token level: the printed form of a tree is the token sequence `renderS` ("(", the
 printed leaves, ")"); if every leaf's printed form classifies back to that leaf (`LeafRT`, a
 statement about one token each), parsing the tokens gives the tree back — for every nesting and
-every size. The character-level facts (white-space splitting of the printed string; decimal
-printing/parsing of individual integers and floats) are hypotheses here and are validated by the
-correspondence check on every generated tree (DESIGN §7 C11, partial). -/
+every size. The second half of the file proves the character-level fact that white-space splitting of
+the printed STRING gives those tokens (`tok_show`, `print_tokens`, `parse_print_string`). What stays a
+per-leaf hypothesis — validated by the correspondence check on every generated tree — is that a single
+float / vector literal / name prints to one word and classifies back to itself (`WordLeaves`, `LeafRT`);
+integers, booleans and instruction names are proved to print as one word. -/
 namespace Pushr.C11
 open Pushr Pushr.Parse
 
@@ -82,5 +85,295 @@ example : (match classify (fun _ => false) (Item.lit (.bool true)).show with
 example : (match classify (fun _ => false) (Item.ident "foo").show with
   | .atom (.ident n) => n == "foo" | _ => false) = true := by decide
 example : tokenize (Item.list [.lit (.int 1), .list [], .ident "a"]).show = ["(", "1", "(", ")", "a", ")"] := by decide
+
+/-! # Character level — the tokens of a printed item
+
+Splitting the printed text at whitespace yields exactly "(" , the tokens of the elements, ")" for a
+list and the atom's own print for an atom (`tok_show`, no hypothesis); when every leaf prints as one
+whitespace-free word (`WordLeaves`: proved for integers, booleans and the 280 registered instruction
+names; a per-leaf hypothesis for names, floats and vector literals) the former hypothesis
+`PrintTokens` is a theorem (`print_tokens`) and `parse (print t) = [t]` holds on STRINGS
+(`parse_print_string`). -/
+
+/-- the tokenizer on characters -/
+def tok (l : List Char) : List (List Char) := splitWs l []
+
+/-- **splitting is compositional at a whitespace character**, whatever has been accumulated -/
+theorem splitWs_append_ws (l1 l2 cur : List Char) (c : Char) (hc : isWs c = true) :
+    splitWs (l1 ++ c :: l2) cur = splitWs (l1 ++ [c]) cur ++ splitWs l2 [] := by
+  induction l1 generalizing cur with
+  | nil =>
+    simp only [List.nil_append, splitWs, hc, if_true]
+    split <;> simp [splitWs]
+  | cons x l1 ih =>
+    simp only [List.cons_append, splitWs]
+    split
+    · split
+      · exact ih []
+      · simp [ih []]
+    · exact ih (x :: cur)
+
+theorem splitWs_snoc_ws (l cur : List Char) (c : Char) (hc : isWs c = true) :
+    splitWs (l ++ [c]) cur = splitWs l cur := by
+  induction l generalizing cur with
+  | nil => simp only [List.nil_append, splitWs, hc, if_true]; split <;> simp_all [splitWs]
+  | cons x l ih =>
+    simp only [List.cons_append, splitWs]
+    split
+    · split
+      · exact ih []
+      · simp [ih []]
+    · exact ih (x :: cur)
+
+theorem tok_append_ws (l1 l2 : List Char) (c : Char) (hc : isWs c = true) :
+    tok (l1 ++ c :: l2) = tok l1 ++ tok l2 := by
+  unfold tok
+  rw [splitWs_append_ws l1 l2 [] c hc, splitWs_snoc_ws l1 [] c hc]
+
+theorem tok_ws_cons (l : List Char) (c : Char) (hc : isWs c = true) : tok (c :: l) = tok l := by
+  have := tok_append_ws [] l c hc
+  simpa [tok, splitWs] using this
+
+theorem tok_allWs (ws : List Char) (h : ws.all isWs = true) : tok ws = [] := by
+  induction ws with
+  | nil => simp [tok, splitWs]
+  | cons c ws ih =>
+    simp only [List.all_cons, Bool.and_eq_true] at h
+    rw [tok_ws_cons ws c h.1, ih h.2]
+
+theorem tok_append_allWs (l ws : List Char) (h : ws.all isWs = true) : tok (l ++ ws) = tok l := by
+  cases ws with
+  | nil => simp
+  | cons c ws =>
+    simp only [List.all_cons, Bool.and_eq_true] at h
+    rw [tok_append_ws l ws c h.1, tok_allWs ws h.2, List.append_nil]
+
+theorem tok_dropWhile (l : List Char) : tok (l.dropWhile isWs) = tok l := by
+  induction l with
+  | nil => rfl
+  | cons c l ih =>
+    simp only [List.dropWhile_cons]
+    split
+    · next h => rw [ih, tok_ws_cons l c h]
+    · rfl
+
+/-- trimming does not change the tokens -/
+theorem tok_trimChars (l : List Char) : tok (trimChars l) = tok l := by
+  unfold trimChars trimL
+  have h := List.takeWhile_append_dropWhile (p := isWs) (l := (l.dropWhile isWs).reverse)
+  have hl : l.dropWhile isWs
+      = (List.dropWhile isWs (l.dropWhile isWs).reverse).reverse ++ (List.takeWhile isWs (l.dropWhile isWs).reverse).reverse := by
+    have := congrArg List.reverse h
+    rw [List.reverse_append, List.reverse_reverse] at this
+    exact this.symm
+  have hws : ((List.takeWhile isWs (l.dropWhile isWs).reverse).reverse).all isWs = true := by
+    rw [List.all_reverse]
+    exact List.all_takeWhile
+  rw [← tok_dropWhile l]
+  conv => rhs; rw [hl]
+  rw [tok_append_allWs _ _ hws]
+
+/-- a non-empty whitespace-free word is one token -/
+def wsFree (w : List Char) : Bool := !w.isEmpty && w.all fun c => !isWs c
+
+theorem splitWs_word (w cur : List Char) (h : w.all (fun c => !isWs c) = true) :
+    splitWs w cur = if (w.reverse ++ cur).isEmpty then [] else [(w.reverse ++ cur).reverse] := by
+  induction w generalizing cur with
+  | nil => simp [splitWs]
+  | cons c w ih =>
+    simp only [List.all_cons, Bool.and_eq_true, Bool.not_eq_true'] at h
+    simp only [splitWs, h.1, Bool.false_eq_true, if_false]
+    rw [ih (c :: cur) h.2]
+    simp
+
+theorem tok_word (w : List Char) (h : wsFree w = true) : tok w = [w] := by
+  simp only [wsFree, Bool.and_eq_true, Bool.not_eq_true'] at h
+  unfold tok
+  rw [splitWs_word w [] h.2]
+  cases w <;> simp_all
+
+/-! ## the printed string -/
+
+theorem foldl_append_toList (a : String) (l : List String) :
+    (List.foldl (fun r s => r ++ s) a l).toList = a.toList ++ l.flatMap String.toList := by
+  induction l generalizing a with
+  | nil => simp
+  | cons x l ih => simp [ih, List.append_assoc]
+
+theorem join_toList (l : List String) : (String.join l).toList = l.flatMap String.toList := by
+  simp [String.join, foldl_append_toList]
+
+/-- tokens of `" a b c"` -/
+theorem tok_spaced (S : List String) :
+    tok ((S.map fun s => " " ++ s).flatMap String.toList) = S.flatMap fun s => tok s.toList := by
+  induction S with
+  | nil => simp [tok, splitWs]
+  | cons s S ih =>
+    simp only [List.map_cons, List.flatMap_cons, String.toList_append]
+    have hsp : " ".toList = [' '] := by decide
+    rw [hsp]
+    have hws : isWs ' ' = true := by decide
+    simp only [List.singleton_append, List.cons_append]
+    rw [tok_ws_cons _ ' ' hws]
+    -- either nothing follows, or the next chunk starts with a blank
+    cases S with
+    | nil => simp
+    | cons s' S' =>
+      simp only [List.map_cons, List.flatMap_cons, String.toList_append, hsp, List.singleton_append,
+        List.nil_append, List.cons_append, List.append_assoc] at ih ⊢
+      rw [tok_append_ws s.toList _ ' ' hws]
+      rw [tok_ws_cons _ ' ' hws] at ih
+      rw [ih]
+
+theorem tok_showStack (S : List String) : tok (showStack S).toList = S.flatMap fun s => tok s.toList := by
+  unfold showStack trim
+  simp only [String.toList_ofList]
+  rw [tok_trimChars, join_toList, tok_spaced]
+
+mutual
+/-- the tokens (as character lists) the printed text of an item splits into -/
+def toksC : Item → List (List Char)
+  | .list xs => ['('] :: (toksCL xs ++ [[')']])
+  | t => tok t.show.toList
+def toksCL : List Item → List (List Char)
+  | [] => []
+  | x :: xs => toksC x ++ toksCL xs
+end
+
+mutual
+/-- **tokenizing the printed text of any item yields "(" elements… ")" recursively**, with no
+hypothesis at all on the atoms: whatever an atom prints is tokenized on its own -/
+theorem tok_show (t : Item) : tok t.show.toList = toksC t := by
+  cases t with
+  | list xs =>
+    have hl : "( ".toList = ['(', ' '] := by decide
+    have hr : " )".toList = [' ', ')'] := by decide
+    have hws : isWs ' ' = true := by decide
+    simp only [Item.show, String.toList_append, hl, hr, toksC]
+    have e : ['(', ' '] ++ (showStack (Item.showL xs)).toList ++ [' ', ')']
+        = ['('] ++ ' ' :: ((showStack (Item.showL xs)).toList ++ ' ' :: [')']) := by simp
+    rw [e, tok_append_ws ['('] _ ' ' hws, tok_append_ws _ [')'] ' ' hws, tok_showStack, tok_showL xs]
+    have h1 : tok ['('] = [['(']] := by decide
+    have h2 : tok [')'] = [[')']] := by decide
+    simp [h1, h2]
+  | instr i => simp [toksC]
+  | lit v => simp [toksC]
+  | ident n => simp [toksC]
+theorem tok_showL (xs : List Item) : ((Item.showL xs).flatMap fun s => tok s.toList) = toksCL xs := by
+  cases xs with
+  | nil => simp [Item.showL, toksCL]
+  | cons x xs => simp only [Item.showL, List.flatMap_cons, toksCL]; rw [tok_show x, tok_showL xs]
+end
+
+mutual
+/-- every atom prints as one non-empty whitespace-free word -/
+def WordLeaves : Item → Prop
+  | .list xs => WordLeavesL xs
+  | t => wsFree t.show.toList = true
+def WordLeavesL : List Item → Prop
+  | [] => True
+  | t :: ts => WordLeaves t ∧ WordLeavesL ts
+end
+
+
+mutual
+theorem toksC_render (t : Item) (h : WordLeaves t) : (toksC t).map String.ofList = renderS t := by
+  cases t with
+  | list xs =>
+    simp only [toksC, renderS, List.map_cons, List.map_append, List.map_nil]
+    rw [toksCL_render xs (by simpa [WordLeaves] using h)]
+  | instr i => simp only [toksC, renderS]; rw [tok_word _ h]; simp
+  | lit v => simp only [toksC, renderS]; rw [tok_word _ h]; simp
+  | ident n => simp only [toksC, renderS]; rw [tok_word _ h]; simp
+theorem toksCL_render (ts : List Item) (h : WordLeavesL ts) : (toksCL ts).map String.ofList = renderSL ts := by
+  cases ts with
+  | nil => rfl
+  | cons t ts =>
+    simp only [WordLeavesL] at h
+    simp only [toksCL, renderSL, List.map_append]
+    rw [toksC_render t h.1, toksCL_render ts h.2]
+end
+
+/-- **the character-level hypothesis of `parse_print` is a theorem**: splitting the printed string of
+an item at white space gives "(" , the printed leaves, ")" — for every nesting and size — as soon as
+each leaf prints as one whitespace-free word -/
+theorem print_tokens (t : Item) (h : WordLeaves t) : PrintTokens t := by
+  unfold PrintTokens tokenize
+  rw [show splitWs t.show.toList [] = tok t.show.toList from rfl, tok_show, toksC_render t h]
+
+/-- **C11 (string level).** `parse (print t) = [t]` for every item each of whose leaves prints as one
+word that classifies back to the same leaf -/
+theorem parse_print_string (f : String → Bool) (t : Item) (hw : WordLeaves t) (hl : LeafRT f t) :
+    parseProgram f [] t.show = [t] :=
+  parse_print f t (print_tokens t hw) hl
+
+/-! ## which leaves print as one word -/
+
+theorem isWs_of_isDigit (c : Char) (h : c.isDigit = true) : isWs c = false := by
+  simp only [Char.isDigit, Bool.and_eq_true, decide_eq_true_eq] at h
+  have h1 : 48 ≤ c.toNat := by
+    have := h.1; rw [ge_iff_le, UInt32.le_iff_toNat_le] at this; exact this
+  have h2 : c.toNat ≤ 57 := by
+    have := h.2; rw [UInt32.le_iff_toNat_le] at this; exact this
+  simp only [isWs, Bool.or_eq_false_iff, Bool.and_eq_false_iff, decide_eq_false_iff_not, beq_eq_false_iff_ne]
+  omega
+
+theorem wsFree_natRepr (n : Nat) : wsFree n.repr.toList = true := by
+  rw [Nat.toList_repr]
+  simp only [wsFree, Bool.and_eq_true, Bool.not_eq_true', List.all_eq_true]
+  refine ⟨?_, fun c hc => ?_⟩
+  · cases hd : Nat.toDigits 10 n with
+    | nil => exact absurd hd Nat.toDigits_ne_nil
+    | cons _ _ => rfl
+  · have := Nat.isDigit_of_mem_toDigits (by decide) (by decide) hc
+    simp [isWs_of_isDigit c this]
+
+theorem wsFree_bool (b : Bool) : WordLeaves (.lit (.bool b)) := by
+  cases b <;> (show wsFree _ = true) <;> decide
+
+theorem wsFree_cons_of (c : Char) (w : List Char) (hc : isWs c = false) (hw : wsFree w = true) :
+    wsFree (c :: w) = true := by
+  simp only [wsFree, Bool.and_eq_true, Bool.not_eq_true', List.all_cons] at hw ⊢
+  exact ⟨by simp, by simp [hc], hw.2⟩
+
+theorem wsFree_int (i : Int32) : WordLeaves (.lit (.int i)) := by
+  show wsFree (toString i.toInt).toList = true
+  cases i.toInt with
+  | ofNat m => exact wsFree_natRepr m
+  | negSucc m =>
+    show wsFree ("-" ++ (Nat.succ m).repr).toList = true
+    rw [String.toList_append, show "-".toList = ['-'] by decide]
+    exact wsFree_cons_of '-' _ (by decide) (wsFree_natRepr _)
+
+/-- every one of the 280 registered instruction names is one word -/
+theorem wsFree_instr (i : Instr) (h : ∀ s, i ≠ .unknown s) : WordLeaves (.instr i) := by
+  show wsFree i.str.toList = true
+  cases i with
+  | unknown s => exact absurd rfl (h s)
+  | noop => decide
+  | stk t o => cases t <;> cases o <;> decide
+  | vec t o => cases t <;> cases o <;> decide
+  | define t => cases t <;> decide
+  | boolean o => cases o <;> decide
+  | integer o => cases o <;> decide
+  | float o => cases o <;> decide
+  | name o => cases o <;> decide
+  | code o => cases o <;> decide
+  | exec o => cases o <;> decide
+  | index o => cases o <;> decide
+  | io o => cases o <;> decide
+  | list o => cases o <;> decide
+  | graph o => cases o <;> decide
+
+/-- non-vacuity: a concrete nested tree meets both hypotheses, so the string-level round trip applies to it -/
+example : parseProgram (fun _ => false) []
+    (Item.list [.lit (.int (-7)), .list [.lit (.bool true), .list []], .ident "foo"]).show
+    = [Item.list [.lit (.int (-7)), .list [.lit (.bool true), .list []], .ident "foo"]] := by
+  apply parse_print_string
+  · simp only [WordLeaves, WordLeavesL]
+    exact ⟨wsFree_int _, ⟨wsFree_bool _, trivial, trivial⟩, by decide, trivial⟩
+  · simp only [LeafRT, LeafRTL]
+    exact ⟨rfl, ⟨rfl, trivial, trivial⟩, rfl, trivial⟩
+
 
 end Pushr.C11
